@@ -4,6 +4,8 @@ Simulated dimension: queries are issued in the middle of seeded placement / move
 (the world reference of C08 is reused), so agents moved or removed since placement are covered by
 construction; the query geometry itself is generated input on a coarse lattice so that agents on box
 faces, coincident agents and seam-crossing boxes are frequent."""
+import math
+
 from ECAgent.Core import Agent, Component, Model
 from ECAgent.Environments import PositionComponent
 
@@ -20,12 +22,12 @@ RULE = ("continuous and grid worlds, wrapping and not; 0-8 agents on a coarse la
         "equal, one larger than the other}; non-trivial = >=3 agents, >=1 agent exactly on a face of the box and >=1 "
         "agent moved since placement; distinct = (kind, wrap, per query: population, answer size, on-face count, "
         "seam-crossing flag, leeway relation)"
-        "; also: continuous extents in (0,1), rejected duplicate placements between queries, wrap_env reassigned, worlds that are not model.environment, model lifecycle ops, agents carrying own components incl. a PositionComponent subclass with another location, agents that are environments themselves, stretches of the history issued from inside a running timestep, grid worlds with agents on half-cell positions")
+        "; also: continuous extents in (0,1), rejected duplicate placements between queries, wrap_env reassigned, worlds that are not model.environment, model lifecycle ops, agents carrying own components incl. a PositionComponent subclass with another location, agents that are environments themselves, stretches of the history issued from inside a running timestep, grid worlds with agents on half-cell positions, infinite leeways")
 COMPONENTS = {"real": ["ECAgent.Environments.SpaceWorld.get_agents_at", "add_agent / move / move_to / remove_agent"],
               "stub": ["agents are plain ECAgent agents created by the harness"]}
 PROBES = ["axis_leeway_larger", "general_leeway_larger", "negative_leeway", "empty_answer", "coincident_agents",
           "query_outside_world", "seam_crossing_box", "agent_on_face", "wrap_world", "moved_since_placement", "rejected_duplicate_add", "model_lifecycle_op", "wrap_mode_switched", "agent_with_position_subclass_component", "agent_is_an_environment", "ops_from_inside_a_timestep",
-          "grid_world_with_half_cell_positions"]
+          "grid_world_with_half_cell_positions", "infinite_leeway"]
 TECHNIQUE = "deterministic simulation: positional queries inside seeded move/remove histories vs an exact geometric filter (seam-aware in wrapping worlds)"
 LEVEL_TEXT = ("Seeded search over placements, move histories and query boxes; every answer must equal, as an ordered id list, an "
               "exact geometric filter over the reference positions (distance around the seam in wrapping worlds); the query "
@@ -50,6 +52,8 @@ def gen_leeways(rng, ref):
     out = [g]
     for _ in range(3):
         out.append(rng.choice([0, 0, g, g + step, max(g - step, 0), -step, 4 * step, step]))
+    if rng.random() < 0.06:
+        out[rng.randrange(4)] = "inf"        # "the whole axis": an infinite leeway is a float like any other
     return out
 
 
@@ -120,7 +124,9 @@ def execute(sc, ctx):
             continue          # stepping the model from inside its own timestep is re-entrant stepping: outside the statements
         if kind == "query":
             p = [int(c) for c in op["p"]]
-            lw = [int(c) for c in op["l"]]
+            lw = [math.inf if c == "inf" else int(c) for c in op["l"]]
+            if math.inf in lw:
+                ctx.probe("infinite_leeway")
             L = [max(lw[0], lw[1 + ax]) for ax in range(3)]
             want, onface, seam = [], 0, False
             for k, ap in pos.items():
